@@ -105,6 +105,9 @@ def evolve(rnd, g, ir, compatible_only):
                 return ir, st
         elif st in ("promote", "demote") and prims:
             h, k, n = rnd.choice(prims)
+            annotated = [x for x in prims if x[2].get("ult")]
+            if annotated and rnd.random() < 0.6:
+                h, k, n = rnd.choice(annotated)       # an annotation nobody knows is ignored: the type underneath promotes as usual
             table = PROMOTE if st == "promote" else DEMOTE
             if n["name"] in table and "lt" not in n:
                 if isinstance(h, list) and any(b["k"] == "prim" and b["name"] in table[n["name"]] for b in h):
